@@ -100,11 +100,30 @@ func ZZ_C10_Vars() {
 		if hGlobal {
 			root.Vars.Set(zzVarName, gv)
 		}
-		if err := root.Merge(inc, include); err != nil {
+		key := "ns:t"
+		if zz.Bool("nested_two_levels") {
+			// root includes `outer` (its include statement may carry an unrelated var),
+			// outer includes the task's file with the include statement above
+			outer := &ast.Taskfile{Version: ver, Vars: ast.NewVars(), Env: ast.NewVars(), Tasks: ast.NewTasks()}
+			if err := outer.Merge(inc, include); err != nil {
+				zz.Assert(false, "merge-must-not-fail")
+				return
+			}
+			outerInclude := &ast.Include{Namespace: "o", AdvancedImport: true, Vars: ast.NewVars()}
+			if zz.Bool("outer_include_has_unrelated_var") {
+				outerInclude.Vars.Set("UNRELATED", ast.Var{Value: "u"})
+			}
+			if err := root.Merge(outer, outerInclude); err != nil {
+				zz.Assert(false, "merge-must-not-fail")
+				return
+			}
+			key = "o:ns:t"
+		} else if err := root.Merge(inc, include); err != nil {
 			zz.Assert(false, "merge-must-not-fail")
 			return
 		}
-		m, ok := root.Tasks.Get("ns:t")
+		call.Task = key
+		m, ok := root.Tasks.Get(key)
 		zz.Assert(ok, "merged-task-present")
 		if !ok {
 			return
